@@ -114,58 +114,95 @@ def execute(case):
         nblocks = sum(len(b) for _, b in per_target)
         probes["shared_parts"] = nblocks - len(required)
 
-        def matches(block, where):
-            kind = "E" if block[0] == "E" else "M"
-            pool = ev_parts if kind == "E" else ma_parts
-            if where == "recipes":
-                pool = [(h, None, None) for h in (ev_recs if kind == "E" else ma_recs)]
-            # exact float identity first; one-ulp differences between the model's
-            # and eko's wall arithmetic are tolerated only when nothing matches exactly
-            ex = [p for p in pool if fp.block_matches_header(block, kind, p[0], exact=True)]
-            if ex:
-                return ex
-            fb = [p for p in pool if fp.block_matches_header(block, kind, p[0])]
-            if fb:
-                probes["inexact_identity_fallbacks"] = probes.get("inexact_identity_fallbacks", 0) + 1
-            if len(fb) > 1:
-                # the model's float arithmetic cannot tell these apart: do not judge
-                probes["ambiguous_model_precision"] = probes.get("ambiguous_model_precision", 0) + 1
-                return fb[:1]
-            return fb
+        def boundary(kind, h, side):
+            """The float an archived header carries on one side of a block."""
+            if kind == "M":
+                return float(h["scale"])
+            return float(h["origin"] if side == "in" else h["target"])
 
+        def resolve(blocks, start, end, where):
+            """Archived entries realising a reference path.
+
+            The model's wall arithmetic may differ from eko's in the last bit, and a
+            card may hold a target one ulp beside a wall, so single blocks are matched
+            with a tolerance - but a *chain* is only accepted if consecutive entries
+            join on bitwise-identical scales, it starts exactly at the initial scale
+            and ends exactly at the target's scale (those two come from the card by
+            the same float operation on both sides)."""
+            pools = []
+            for b in blocks:
+                kind = b[0]
+                if where == "parts":
+                    pool = ev_parts if kind == "E" else ma_parts
+                else:
+                    pool = [(h, None, None) for h in (ev_recs if kind == "E" else ma_recs)]
+                pools.append([p for p in pool if fp.block_matches_header(b, kind, p[0])])
+            chains = []
+
+            def rec(i, acc):
+                if i == len(blocks):
+                    chains.append(list(acc))
+                    return
+                for p in pools[i]:
+                    kind = blocks[i][0]
+                    if i == 0 and boundary(kind, p[0], "in") != start:
+                        continue
+                    if i > 0 and boundary(kind, p[0], "in") != boundary(blocks[i - 1][0], acc[-1][0], "out"):
+                        continue
+                    if i == len(blocks) - 1 and boundary(kind, p[0], "out") != end:
+                        continue
+                    acc.append(p)
+                    rec(i + 1, acc)
+                    acc.pop()
+
+            rec(0, [])
+            return pools, chains
+
+        used = {"parts": [], "recipes": []}
+        chains_for = {}
         for where in ("parts", "recipes"):
-            for b in required:
-                m = matches(b, where)
-                if len(m) == 0:
-                    viol.append(dict(cls="required-part-missing", key=f"required-part-missing:{where}", msg=f"path block {b} is needed by a target but is not among the archived {where}"))
-                elif len(m) > 1:
-                    viol.append(dict(cls="part-stored-more-than-once", key=f"part-stored-more-than-once:{where}", msg=f"path block {b} is archived {len(m)} times in {where}: {[x[0] for x in m]}"))
-            have = [("E", h) for h, _, _ in (ev_parts if where == "parts" else [(h, 0, 0) for h in ev_recs])] + [("M", h) for h, _, _ in (ma_parts if where == "parts" else [(h, 0, 0) for h in ma_recs])]
-            for kind, h in have:
-                if not any(b[0] == kind and fp.block_matches_header(b, kind, h) for b in required):
+            for (mu2, nf), blocks in per_target:
+                pools, chains = resolve(blocks, origin[0], mu2, where)
+                if not chains:
+                    miss = next((b for b, pl in zip(blocks, pools) if not pl), None)
+                    if miss is not None:
+                        viol.append(dict(cls="required-part-missing", key=f"required-part-missing:{where}", msg=f"path block {miss} of target ({mu2}, {nf}) is not among the archived {where}"))
+                    else:
+                        viol.append(dict(cls="path-does-not-chain", key=f"path-does-not-chain:{where}", msg=f"archived {where} matching the blocks {blocks} of target ({mu2}, {nf}) do not join on identical scales from {origin[0]} to {mu2}: {[[p[0] for p in pl] for pl in pools]}"))
+                    continue
+                sigs_ = {tuple(id(p[0]) for p in ch) for ch in chains}
+                if len(sigs_) > 1:
+                    dup = next((pl for pl in pools if len({id(p[0]) for ch in chains for p in ch if p in pl}) > 1), pools[0])
+                    viol.append(dict(cls="part-stored-more-than-once", key=f"part-stored-more-than-once:{where}", msg=f"target ({mu2}, {nf}): a block of its path is archived more than once in {where}: {[p[0] for p in dup]}"))
+                    continue
+                used[where] += [id(p[0]) for p in chains[0]]
+                if where == "parts":
+                    chains_for[(mu2, nf)] = chains[0]
+            have = [h for h, _, _ in (ev_parts + ma_parts)] if where == "parts" else (ev_recs + ma_recs)
+            for h in have:
+                if id(h) not in used[where] and not viol:
                     viol.append(dict(cls="extra-part", key=f"extra-part:{where}", msg=f"archived {where} entry {h} is not on the path of any target (reference blocks: {required})"))
         # ---------------------------------------------------------------- (0) targets
         want = sorted(set((mu**2, nf) for mu, nf in case["operator"]["mugrid"]))
-        if len(ops) != len(want) or any(not any(fp.feq(a[0], b[0]) and a[1] == b[1] for b in ops) for a in want):
+        if sorted(ops) != want:
             viol.append(dict(cls="targets-differ", key="targets-differ", msg=f"archived operators {sorted(ops)} vs requested targets {want}"))
         # ---------------------------------------------------------------- (3) ordered product
         if not viol:
             for (mu2, nf), blocks in per_target:
-                got = (ops.get((mu2, nf)) or next(v for k, v in ops.items() if fp.feq(k[0], mu2) and k[1] == nf))[0]
+                got = ops[(mu2, nf)][0]
+                chain = chains_for[(mu2, nf)]
                 prod = None
-                for b in blocks:
-                    part = matches(b, "parts")[0][1]
-                    prod = part if prod is None else dot4(part, prod)  # later steps on the left
+                for p_ in chain:
+                    prod = p_[1] if prod is None else dot4(p_[1], prod)  # later steps on the left
                 scale = max(1.0, float(np.max(np.abs(prod)))) if np.all(np.isfinite(prod)) else 1.0
                 if got.shape != prod.shape or not np.allclose(got, prod, rtol=1e-10, atol=1e-13 * scale):
                     dev = float(np.max(np.abs(got - prod))) if got.shape == prod.shape else float("nan")
                     # diagnose: is it the reversed product?
                     rev = None
-                    for b in blocks:
-                        part = matches(b, "parts")[0][1]
-                        rev = part if rev is None else dot4(rev, part)
+                    for p_ in chain:
+                        rev = p_[1] if rev is None else dot4(rev, p_[1])
                     hint = " (it equals the product in the REVERSED order)" if got.shape == rev.shape and np.allclose(got, rev, rtol=1e-10, atol=1e-13 * scale) and len(blocks) > 1 else ""
-                    viol.append(dict(cls="operator-is-not-ordered-product", key="operator-is-not-ordered-product", msg=f"target ({mu2}, {nf}): stored operator differs from P_n...P_1 of the archived parts along {blocks} by {dev:.3e}{hint}", target=[mu2, nf]))
+                    viol.append(dict(cls="operator-is-not-ordered-product", key="operator-is-not-ordered-product", msg=f"target ({mu2}, {nf}): stored operator differs from P_n...P_1 of the archived parts {[p_[0] for p_ in chain]} by {dev:.3e}{hint}", target=[mu2, nf]))
                     break
         sig = (len(required), probes["max_path_len"], probes["downward_targets"] > 0, probes["upward_targets"] > 0, probes["shared_parts"] > 0, probes["on_wall_targets"] > 0)
     res = dict(violations=viol, digest=digest, probes=probes, physics=case["physics"], sig=list(sig), sim_events=len(events), pool_runs=len(log), n_targets=len(per_target))
